@@ -524,7 +524,21 @@ Section Horizontal.
 
   (** *** longitude (periodic overlap as coded) *)
   Lemma per_overlap_nonneg period x0 x1 y0 y1 : fle 0 (per_overlap period x0 x1 y0 y1).
-  Proof. unfold per_overlap. cbv zeta. apply fmax_ge_r. Qed.
+  Proof.
+    unfold per_overlap. cbv zeta.
+    replace 0 with (0 + 0 + 0 + 0) at 1 by ring.
+    repeat apply fle_add2; try apply fle_refl; apply fmax_ge_r.
+  Qed.
+
+  (** the coded periodic overlap is the sum of the overlaps with the three
+      images (offsets -period, 0, +period) of the second interval moved as a
+      whole by [shift = align(y0,x0) - y0] *)
+  Lemma per_overlap_images period x0 x1 y0 y1 :
+    let s := align_phase y0 x0 period - y0 in
+    per_overlap period x0 x1 y0 y1
+    = ov x0 x1 (y0 + s + - period) (y1 + s + - period) + ov x0 x1 (y0 + s + 0) (y1 + s + 0)
+      + ov x0 x1 (y0 + s + period) (y1 + s + period).
+  Proof. cbv zeta. unfold per_overlap, ov. cbv zeta. ring. Qed.
 
   Lemma lon_overlap_nonneg period n m tp sp i j : fle 0 (lon_overlap period n m tp sp i j).
   Proof. apply per_overlap_nonneg. Qed.
@@ -915,28 +929,25 @@ Section LatitudeR.
   Qed.
 End LatitudeR.
 
-(** *** periodic overlap over the reals, pointwise: under the precondition
-    "the two widths add up to at most period/2" (and both cells within 3/2
-    periods of each other, as is the case after [% period]) the coded
-    [_periodic_overlap] is the true periodic overlap, i.e. the sum of the
-    overlaps with the three shifted copies of the second cell. *)
+(** *** periodic overlap over the reals, pointwise facts (case analysis + lra) *)
 Section PeriodicR.
   Local Open Scope R_scope.
-Ltac no_dec t := lazymatch t with context [Rle_dec _ _] => fail | _ => idtac end.
-Ltac split_le :=
-  repeat (match goal with
-          | |- context [Rle_dec ?a ?b] => no_dec a; no_dec b; destruct (Rle_dec a b); cbn; try (exfalso; lra)
-          end).
+  Ltac no_dec t := lazymatch t with context [Rle_dec _ _] => fail | _ => idtac end.
+  Ltac split_le :=
+    repeat (match goal with
+            | |- context [Rle_dec ?a ?b] => no_dec a; no_dec b; destruct (Rle_dec a b); cbn; try (exfalso; lra)
+            end).
+  Ltac unfold_pov :=
+    unfold per_overlap, align_phase, fmax, fmin, fltb, ind, two; cbn; unfold Rleb;
+    replace (1 + 1) with 2 by lra.
 
-  Lemma per_overlap_shifted_R (P x0 x1 y0 y1 : R) :
-  0 < P -> x0 <= x1 -> y0 <= y1 -> (x1 - x0) + (y1 - y0) <= P / 2 ->
-  - (3 * P / 2) < y0 - x0 -> y1 - x0 < 3 * P / 2 ->
-  @per_overlap R ROps P x0 x1 y0 y1
-  = @ov R ROps x0 x1 (y0 - P) (y1 - P) + @ov R ROps x0 x1 y0 y1 + @ov R ROps x0 x1 (y0 + P) (y1 + P).
-Proof.
-  intros HP Hx Hy Hw Hlo Hhi.
-  unfold per_overlap, align_phase, ov, fmax, fmin, fltb, ind, two. cbn. unfold Rleb.
-  replace (1 + 1) with 2 by lra.
-  split_le; cbn; lra.
-Qed.
+  (** a full-period interval overlaps any cell not wider than the period by the whole cell *)
+  Lemma pov_full_R (P x0 x1 u : R) :
+    0 < P -> x0 <= x1 -> x1 - x0 <= P -> - (3 * P / 2) < u - x0 < 3 * P / 2 ->
+    @per_overlap R ROps P x0 x1 u (u + P) = x1 - x0.
+  Proof. intros HP Hx Hw Hr. unfold_pov. split_le; cbn; lra. Qed.
+
+  Lemma pov_empty_R (P x0 x1 u : R) :
+    0 < P -> x0 <= x1 -> @per_overlap R ROps P x0 x1 u u = 0.
+  Proof. intros HP Hx. unfold_pov. split_le; cbn; lra. Qed.
 End PeriodicR.
